@@ -36,8 +36,8 @@ WORDS = ["a", "bb", "ccc,", "dddd", "eeeeee,", "fffffffff"]
 
 def plan(tier, seed):
     q = tier == "quick"
-    n = 12 if q else 32
-    specs = [{"kind": "draw", "i": i, "count": 45 if q else 330} for i in range(n)]
+    n = 16 if q else 32
+    specs = [{"kind": "draw", "i": i, "count": 120 if q else 330} for i in range(n)]
     specs += [{"kind": "wrap", "i": i, "n": 4, "maxwords": 4 if q else 5} for i in range(4)]
     specs.append({"kind": "fixtures"})
     return specs
